@@ -91,4 +91,6 @@ def inv_action(S_, a):
         Or(Val.is_VNone(cond), Val.is_VStr(cond)),
         Val.is_VStr(h.f(a, "LocationAction.__id")),
         h.dlen(cfg) >= 0,
+        Or(*[h.f(a, "LocationAction.__action_type") == S_.enum("LocationAction.ActionType", m)
+             for m in ("Snapshot", "Log", "Metric", "Span")]),
     )
